@@ -1,0 +1,28 @@
+//! Verification hooks (feature `verif-hooks` only).
+//!
+//! `pause(point)` is a no-op unless a handler has been installed; a verification
+//! harness installs one to park a task at a named point so that a controlled
+//! scheduler can interleave tasks deterministically or emulate a crash there.
+
+use std::future::Future;
+use std::pin::Pin;
+use std::sync::{Arc, RwLock};
+
+/// Handler invoked at every pause point.
+pub type PauseHandler =
+    Arc<dyn Fn(&'static str) -> Pin<Box<dyn Future<Output = ()> + Send>> + Send + Sync>;
+
+static HANDLER: RwLock<Option<PauseHandler>> = RwLock::new(None);
+
+/// Install (or, with `None`, remove) the process-wide pause handler.
+pub fn set_pause_handler(handler: Option<PauseHandler>) {
+    *HANDLER.write().unwrap() = handler;
+}
+
+/// Named pause point; returns immediately when no handler is installed.
+pub async fn pause(point: &'static str) {
+    let handler = HANDLER.read().unwrap().clone();
+    if let Some(handler) = handler {
+        handler(point).await;
+    }
+}
